@@ -96,6 +96,19 @@ CHECKS["C12"] = dict(
          "NOT decide the whole memory image over directive sequences (composition argued) nor 'zero elsewhere'.",
     design="DESIGN.md §6 C12")
 
+CHECKS["C13"] = dict(
+    technique="path enumeration over the macro_use / macro_def action ASTs: ordering of guard effects (contains < insert < nested parse < remove) on every path, rejecting branches, structural search for a depth bound",
+    text="Decides the recursion-guard protocol on every path, rejection of unknown macros, re-raising of expansion errors at the use site, agreement of the "
+         "placeholder syntax between definition and use, and that nothing bounds the input-driven native recursion depth. Does NOT decide that an expansion "
+         "equals the hand-expanded body (regex whole-word replacement and string substitution are run-time semantics).",
+    design="DESIGN.md §6 C13")
+CHECKS["C16"] = dict(
+    technique="path enumeration over all assembler action ASTs (push/add_entry pairing with the production's @L lookaround; lock/unlock bracketing) + MIR value tracing of every position handed to get_err_pos in the driver",
+    text="Decides: each emitted instruction gets exactly one source-map entry taken at the start of its production (closing brace for the implied ret); "
+         "set_source/lock/unlock bracket the nested macro parse on every path; every driver message and preprocess diagnostic passes the recorded position "
+         "unmodified to the line lookup. Does NOT decide the line/column arithmetic inside LexerHelper (value level), e.g. the last line without newline.",
+    design="DESIGN.md §6 C16")
+
 NOT_YET = {}
 
 
